@@ -956,9 +956,9 @@ Proof.
     eapply (at_path_st_wf_at (nranks s) f path O (length path)); try eassumption. reflexivity.
 Qed.
 
-Theorem step_wf s o : wf_st s -> wf_st (fst (step s o)).
+Lemma step0_wf s o : wf_st s -> wf_st (fst (step0 s o)).
 Proof.
-  intros Hs. destruct o; cbn [Store.step].
+  intros Hs. destruct o; cbn [Store.step0].
   - (* OGetRef *)
     destruct (Nat.leb (length pt) (nranks s) && negb (Nat.eqb (length pt) 0)); [|exact Hs].
     pose proof Hs as (id & ow & es & Hr & Hn & Hw).
@@ -1102,6 +1102,8 @@ Proof.
     cbn [fst]. refine (at_path_st_wf_st_at s path _ (es', nx, rk) Hs _ _ Hat).
     + intros e0 nx0 rk0 Hl0 _ _. apply assign_fib_wf; assumption.
     + intros lvl e0 nx0 rk0. apply assign_fib_len.
+  - (* OSetItemCF: not a step0 operation *)
+    exact Hs.
 Qed.
 
 (* a refused operation (or an ill-addressed one) leaves the state exactly as it was *)
@@ -1114,11 +1116,11 @@ Proof.
   cbn [snd]. intros [H|H]; discriminate.
 Qed.
 
-Theorem step_rejected_unchanged s o :
-  snd (Store.step s o) = Rejected \/ snd (Store.step s o) = BadAddress ->
-  fst (Store.step s o) = s.
+Lemma step0_rejected_unchanged s o :
+  snd (Store.step0 s o) = Rejected \/ snd (Store.step0 s o) = BadAddress ->
+  fst (Store.step0 s o) = s.
 Proof.
-  intros H. destruct o; cbn [Store.step] in *.
+  intros H. destruct o; cbn [Store.step0] in *.
   - destruct (Nat.leb (length pt) (nranks s) && negb (Nat.eqb (length pt) 0)); [|reflexivity].
     destruct (get_ref (nranks s) (s_d s) w O pt (root_es s) (s_next s) (s_ranks s))
       as [[[es' nx] rk] r]. cbn [snd] in H. destruct H; discriminate.
@@ -1205,4 +1207,156 @@ Proof.
     destruct (at_path_st path _ O (root_es s) (s_next s) (s_ranks s)) as [[[es' nx] rk]|];
       [|reflexivity].
     cbn [snd] in H. destruct H; discriminate.
+  - reflexivity.
+Qed.
+
+(* ---------- OSetItemCF: the coordinate-only assignment, then the fiber-only assignment ----------
+   [step] differs from [step0] only there; every theorem about [step0] is lifted through
+   [step_decomp]. *)
+Lemma step_not_cf s o :
+  match o with OSetItemCF _ _ _ _ => False | _ => True end -> Store.step s o = step0 s o.
+Proof. destruct o; intros H; try reflexivity. contradiction. Qed.
+
+Lemma step_decomp s o :
+  Store.step s o = step0 s o
+  \/ exists path pos c t, o = OSetItemCF path pos c t
+     /\ ((fst (Store.step s o) = s
+          /\ (snd (Store.step s o) = Rejected \/ snd (Store.step s o) = BadAddress))
+         \/ exists s1 r1,
+              Nat.ltb (S (length path)) (nranks s) && plain_wf (nranks s - S (length path)) t = true
+              /\ step0 s (OSetItem path pos (Some c) None) = (s1, Done r1)
+              /\ Store.step s o = step0 s1 (OSetItemFib path pos t)).
+Proof.
+  destruct o; try (left; reflexivity).
+  right. exists path, pos, c, t. split; [reflexivity|]. cbn [Store.step].
+  destruct (Nat.ltb (S (length path)) (nranks s) && plain_wf (nranks s - S (length path)) t) eqn:Hg;
+    [|left; split; [reflexivity|right; reflexivity]].
+  destruct (step0 s (OSetItem path pos (Some c) None)) as [s1 [r1| |]] eqn:E1.
+  - right. exists s1, r1. repeat split; reflexivity.
+  - left. split; [reflexivity|left; reflexivity].
+  - left. split; [reflexivity|right; reflexivity].
+Qed.
+
+Theorem step_wf s o : wf_st s -> wf_st (fst (Store.step s o)).
+Proof.
+  intros Hs.
+  destruct (step_decomp s o) as [E|(path & pos & c & t & _ & [[E _]|(s1 & r1 & _ & E1 & E2)])].
+  - rewrite E. apply step0_wf. exact Hs.
+  - rewrite E. exact Hs.
+  - rewrite E2. apply step0_wf.
+    pose proof (step0_wf s (OSetItem path pos (Some c) None) Hs) as H1. rewrite E1 in H1. exact H1.
+Qed.
+
+(* once the coordinate has been accepted the payload part cannot be refused: it addresses the
+   same fiber at the same position, and the fiber has kept its length *)
+Lemma set_nth_len {A} (x : A) : forall l i, length (set_nth i x l) = length l.
+Proof. induction l as [|y l IH]; intros [|i]; cbn [set_nth length]; try reflexivity. rewrite IH. reflexivity. Qed.
+
+Lemma set_nth_hit {A} (x : A) : forall l i y, nth_error l i = Some y -> nth_error (set_nth i x l) i = Some x.
+Proof.
+  induction l as [|z l IH]; intros [|i] y H; cbn [nth_error set_nth] in *; try discriminate; [reflexivity|].
+  eapply IH. exact H.
+Qed.
+
+Lemma do_setitem_coord_some pos c e e' :
+  do_setitem pos (Some c) None e = Some e' ->
+  length e' = length e
+  /\ ((if pos <? 0 then pos + Z.of_nat (length e) else pos) <? 0)
+     || (Z.of_nat (length e) <=? (if pos <? 0 then pos + Z.of_nat (length e) else pos)) = false.
+Proof.
+  unfold do_setitem. intros Hd.
+  destruct ((if pos <? 0 then pos + Z.of_nat (length e) else pos) <? 0); [discriminate|].
+  destruct (Z.of_nat (length e) <=? (if pos <? 0 then pos + Z.of_nat (length e) else pos));
+    [discriminate|].
+  split; [|reflexivity].
+  match type of Hd with (if ?b then _ else _) = _ => destruct b; [|discriminate] end.
+  destruct (nth_error e (Z.to_nat (if pos <? 0 then pos + Z.of_nat (length e) else pos)))
+    as [[c0 p0]|]; [|discriminate].
+  inversion Hd. apply set_nth_len.
+Qed.
+
+Lemma path_ok_fiber_at f : forall path lvl es es',
+  at_path path f lvl es = Some es' -> exists e, fiber_at path es = Some e.
+Proof.
+  induction path as [|c path IH]; intros lvl es es' Hat.
+  - exists es. reflexivity.
+  - cbn [at_path] in Hat. cbn [fiber_at].
+    destruct (nth_error es (bisect c (map fst es))) as [[c' [v|id ow e1]]|]; try discriminate.
+    destruct (c' =? c); [|discriminate].
+    destruct (at_path path f (S lvl) e1) as [e2|] eqn:Hrec; [|discriminate].
+    eapply IH. exact Hrec.
+Qed.
+
+Lemma fiber_at_at_path f : forall path lvl es es' e,
+  fiber_at path es = Some e -> at_path path f lvl es = Some es' ->
+  exists e', f (lvl + length path)%nat e = Some e' /\ fiber_at path es' = Some e'.
+Proof.
+  induction path as [|c path IH]; intros lvl es es' e Hf Hat.
+  - cbn [fiber_at] in Hf. inversion Hf; subst e. cbn [at_path] in Hat. cbn [length].
+    rewrite Nat.add_0_r. exists es'. split; [exact Hat|reflexivity].
+  - cbn [fiber_at] in Hf. cbn [at_path] in Hat.
+    destruct (nth_error es (bisect c (map fst es))) as [[c' [v|id ow e1]]|] eqn:Hn; try discriminate.
+    destruct (c' =? c) eqn:Hc; [|discriminate]. apply Z.eqb_eq in Hc. subst c'.
+    destruct (at_path path f (S lvl) e1) as [e2|] eqn:Hrec; [|discriminate].
+    inversion Hat; subst es'. clear Hat.
+    destruct (IH (S lvl) e1 e2 e Hf Hrec) as (e' & H1 & H2).
+    exists e'. split.
+    + cbn [length]. rewrite Nat.add_succ_r. exact H1.
+    + cbn [fiber_at]. rewrite (map_fst_set_nth _ c _ _ es Hn), (set_nth_hit _ _ _ _ Hn), Z.eqb_refl.
+      exact H2.
+Qed.
+
+Lemma fiber_at_at_path_st f : forall path lvl es nx rk e,
+  fiber_at path es = Some e -> exists r, at_path_st path f lvl es nx rk = Some r.
+Proof.
+  induction path as [|c path IH]; intros lvl es nx rk e Hf.
+  - eexists. reflexivity.
+  - cbn [fiber_at] in Hf. cbn [at_path_st].
+    destruct (nth_error es (bisect c (map fst es))) as [[c' [v|id ow e1]]|]; try discriminate.
+    destruct (c' =? c); [|discriminate].
+    destruct (IH (S lvl) e1 nx rk e Hf) as ([[e2 nx'] rk'] & Hr). rewrite Hr. eexists. reflexivity.
+Qed.
+
+Lemma setitemcf_payload_done s path pos c t s1 r1 :
+  Nat.ltb (S (length path)) (nranks s) && plain_wf (nranks s - S (length path)) t = true ->
+  step0 s (OSetItem path pos (Some c) None) = (s1, Done r1) ->
+  exists s2, step0 s1 (OSetItemFib path pos t) = (s2, Done RNone).
+Proof.
+  intros Hg E1. cbn [step0] in E1.
+  destruct (Nat.eqb (S (length path)) (nranks s) || Nat.ltb (length path) (nranks s) && true);
+    [|discriminate].
+  unfold local in E1.
+  destruct (path_ok path (root_es s)); [|discriminate].
+  destruct (at_path path (fun _ : nat => do_setitem pos (Some c) None) 0 (root_es s)) as [es'|] eqn:Hat;
+    [|discriminate].
+  inversion E1 as [[Hs1 Hr1]]. clear E1 Hr1.
+  destruct (path_ok_fiber_at _ _ _ _ _ Hat) as (e & Hfa).
+  destruct (fiber_at_at_path _ _ _ _ _ _ Hfa Hat) as (e' & Hdo & Hfa').
+  destruct (do_setitem_coord_some pos c e e' Hdo) as [Hlen Hrange].
+  unfold with_root. unfold root_es in Hfa. destruct (s_root s) as [v|id ow es0] eqn:Hroot.
+  - (* a leaf root has no element to assign to *)
+    destruct path as [|c1 path]; cbn [fiber_at nth_error] in Hfa; [|discriminate].
+    inversion Hfa; subst e. cbn [length] in Hrange. exfalso.
+    apply orb_false_iff in Hrange. destruct Hrange as [Ha Hb].
+    apply Z.ltb_ge in Ha. apply Z.leb_gt in Hb. cbn [Z.of_nat] in Ha, Hb.
+    destruct (pos <? 0); lia.
+  - cbn [step0]. unfold nranks, root_es. cbn [s_root s_ranks s_next]. fold (nranks s).
+    rewrite Hg, Hfa'. cbv zeta. rewrite Hlen, Hrange.
+    destruct (fiber_at_at_path_st (setitem_fib
+                (Z.to_nat (if pos <? 0 then pos + Z.of_nat (length e) else pos)) t)
+                path 0 es' (s_next s) (s_ranks s) e' Hfa') as ([[e2 nx'] rk'] & Hr).
+    rewrite Hr. eexists. reflexivity.
+Qed.
+
+(* a refused operation (or an ill-addressed one) leaves the state exactly as it was *)
+Theorem step_rejected_unchanged s o :
+  snd (Store.step s o) = Rejected \/ snd (Store.step s o) = BadAddress ->
+  fst (Store.step s o) = s.
+Proof.
+  intros H.
+  destruct (step_decomp s o) as [E|(path & pos & c & t & _ & [[E _]|(s1 & r1 & Hg & E1 & E2)])].
+  - rewrite E in *. apply step0_rejected_unchanged. exact H.
+  - exact E.
+  - destruct (setitemcf_payload_done s path pos c t s1 r1 Hg E1) as (s2 & E3).
+    rewrite E2, E3 in H. cbn [snd] in H. destruct H; discriminate.
 Qed.
